@@ -208,6 +208,24 @@ func runC18(t *testing.T, planAny any, res *simnet.Result) {
 		dead := map[string]bool{}
 		defer installYields(res.Seed, 0, "none")()
 		closesLeft := p.CloseInAdRound
+		// a close that takes its time: the goroutine closing a socket is held, on the simulated clock, at the point
+		// where PacketConn.Close is about to take the listener lock (no lock is held there), long enough for one of
+		// the owner's periodic advertisement rounds to run in between
+		slowCloses := 0
+		setYieldAction("lock", func(site string) {
+			if !strings.HasPrefix(site, "packetconn.go:PacketConn.Close:") {
+				return
+			}
+			omu.Lock()
+			slowCloses++
+			n := slowCloses
+			omu.Unlock()
+			if simnet.H(res.Seed, "slow-close", n)%3 != 0 {
+				return
+			}
+			w.Count("fault_slow_close", 1)
+			time.Sleep(time.Duration(1+simnet.H(res.Seed, "slow-close-d", n)%uint64(p.ServiceAdS*1000+200)) * time.Millisecond)
+		})
 		setYieldAction("svcad.send", func(nodeSvc string) {
 			key := strings.Replace(nodeSvc, "|", "/", 1)
 			omu.Lock()
